@@ -96,6 +96,27 @@ SUBSTR = C.Kind("sign-str-subclass", impl=_impl_substr, model=lambda a: "sign " 
                 classify=lambda a, o: a[0] + ":" + o.split(" ")[0], nontrivial=lambda a, o: (a[0], a[1][:16], o[:5]))
 
 
+def _impl_threads(a):
+    """the batch signed by four threads at once (switch interval at its minimum): every result is what a single thread gets"""
+    import sys
+    from concurrent.futures import ThreadPoolExecutor
+    alone = [_impl_sign(p) for p in a]
+    old = sys.getswitchinterval()
+    sys.setswitchinterval(1e-6)
+    try:
+        with ThreadPoolExecutor(4) as ex:
+            runs = [list(ex.map(_impl_sign, a)) for _ in range(3)]
+    finally:
+        sys.setswitchinterval(old)
+    bad = sum(1 for r in runs for x, y in zip(alone, r) if x != y)
+    return f"{bad}-of-{3 * len(a)}-differ-from-the-single-threaded-result"
+
+
+THREADS = C.Kind("sign-from-four-threads", impl=_impl_threads,
+                 judge=lambda a, o: [("c06gate -", "0" if o.startswith("0-of-") else o)],
+                 classify=lambda a, o: "threads", nontrivial=lambda a, o: len(a))
+
+
 def _impl_crc(a):
     return str(binascii.crc_hqx(bytes.fromhex(a[1]), a[0]))
 
@@ -103,7 +124,7 @@ def _impl_crc(a):
 CRC = C.Kind("crc_hqx", impl=_impl_crc, judge=lambda a, out: [(f"crc {a[0]} {C.hx(bytes.fromhex(a[1]))}", out)],
              classify=lambda a, o: "crc", nontrivial=lambda a, o: (a[0], o))
 
-KINDS = {"sign": SIGN, "crc_hqx": CRC, "sign-str-subclass": SUBSTR}
+KINDS = {"sign": SIGN, "crc_hqx": CRC, "sign-str-subclass": SUBSTR, "sign-from-four-threads": THREADS}
 
 
 def shipped_frames():
@@ -188,6 +209,8 @@ def streams(ctx: C.Ctx):
     for i, b in enumerate(bad):
         mixed += [b, rnd[i % len(rnd)].lower()[:64] if i % 3 == 0 else b]
     ctx.run_cases(SIGN, "malformed-texts-asked-again", mixed + bad, exhaustive=False, sample_every=max(1, len(mixed) // 2))
+    ctx.run_cases(THREADS, "batches-signed-by-four-threads-at-once", [[rng.randbytes(rng.randrange(1, 120)).hex() for _ in range(ctx.n(4000, 20000))]
+                                                                       for _ in range(ctx.n(3, 10))], exhaustive=False)
     # the packet handed over as an instance of a str SUBCLASS (an enum member with str mixed in, a str whose __str__/__format__/
     # __repr__ say something else): the text that is signed and returned is the string's own characters
     odd = []
